@@ -36,9 +36,10 @@ def run(m):
             cls = [l.strip() for l in r.stdout.splitlines() if l.strip().startswith("class:")]
             res.append("%s:exit=%d violations=%d %s" % (p, r.returncode, len(v), (cls[0][:140] if cls else (r.stderr[-200:] if r.returncode == 2 else ""))))
             for t in (".", ):
-                for fn in ("vcheck." + mid, "overlay." + mid + ".json", "build." + mid + ".log"):
-                    try: os.remove(os.path.join(ROOT, "build", fn))
-                    except OSError: pass
+                for fn in os.listdir(os.path.join(ROOT, "build")):
+                    if fn.endswith("." + mid) or fn.endswith("." + mid + ".json") or fn.endswith("." + mid + ".log"):
+                        fp = os.path.join(ROOT, "build", fn)
+                        shutil.rmtree(fp, ignore_errors=True) if os.path.isdir(fp) else os.remove(fp)
         return mid, prop, surv, " ; ".join(res)
     finally:
         shutil.rmtree(work, ignore_errors=True)
